@@ -67,7 +67,11 @@ def to_coq(case, obs):
 
 def canon(bundle):
     st = bundle['_state']['!!meta']['class_name'].split(':')[-1].lower()
-    ctx = copy.deepcopy(bundle.get('_context', {}))
+    raw = bundle.get('_context', {})
+    ctx = copy.deepcopy(raw)
+    if 'view' in ctx:
+        # object sharing inside the snapshot is part of what it holds: record it instead of the (redundant) second copy
+        ctx['view'] = 'the list d.k' if raw['view'] is raw.get('d', {}).get('k') else 'A SEPARATE COPY of the list d.k'
     return {'state': st, 'ctx': ctx}
 
 
